@@ -26,14 +26,14 @@ type walletDesc struct {
 }
 
 type op struct {
-	K      string `json:"k"`                // reg|vote
-	W      int    `json:"w"`                // wallet 1..3
-	By     int    `json:"by,omitempty"`     // reg: registering wallet's own client (0) or another wallet's client (its number)
-	Flaw   string `json:"flaw,omitempty"`   // reg: dupid|dupkey|t1|tbig|scheme|badkey|pk ; vote: json|big|zero|nosig
-	S      int    `json:"s,omitempty"`      // vote: sender = signer index 1..n of wallet SW (0 = stranger)
-	SW     int    `json:"sw,omitempty"`     // vote: the wallet the sender belongs to (normally = W)
+	K      string `json:"k"`              // reg|vote
+	W      int    `json:"w"`              // wallet 1..3
+	By     int    `json:"by,omitempty"`   // reg: registering wallet's own client (0) or another wallet's client (its number)
+	Flaw   string `json:"flaw,omitempty"` // reg: dupid|dupkey|t1|tbig|scheme|badkey|pk ; vote: json|big|zero|nosig
+	S      int    `json:"s,omitempty"`    // vote: sender = signer index 1..n of wallet SW (0 = stranger)
+	SW     int    `json:"sw,omitempty"`   // vote: the wallet the sender belongs to (normally = W)
 	Now    int64  `json:"now,omitempty"`
-	P      int    `json:"p,omitempty"`      // proposal id number
+	P      int    `json:"p,omitempty"` // proposal id number
 	To     int    `json:"to,omitempty"`
 	Amount uint64 `json:"amount,omitempty"`
 	Sig    string `json:"sig,omitempty"` // ok|otheramount|otherkey|garbage
@@ -118,13 +118,15 @@ type ledger struct {
 	amount   uint64
 	voters   map[int]bool
 	executed bool
+	signed   map[int][2]uint64 // per counted voter: (recipient number, amount) its vote's signature was made over
 }
 
 type result struct {
-	outs  []string
-	ops   []string
-	fails []string
-	kinds map[string]int
+	outs     []string
+	ops      []string
+	fails    []string
+	c04fails []string // property C04 on the same run: signed transfers queued without the wallet's valid signature
+	kinds    map[string]int
 }
 
 func (r *result) fail(k string) {
@@ -134,6 +136,31 @@ func (r *result) fail(k string) {
 		}
 	}
 	r.fails = append(r.fails, k)
+}
+
+func (r *result) c04(k string) {
+	for _, f := range r.c04fails {
+		if f == k {
+			return
+		}
+	}
+	r.c04fails = append(r.c04fails, k)
+}
+
+func (r *result) list(prop string) []string {
+	if prop == "C04" {
+		return r.c04fails
+	}
+	return r.fails
+}
+
+func (r *result) hasIn(prop, k string) bool {
+	for _, f := range r.list(prop) {
+		if f == k {
+			return true
+		}
+	}
+	return false
 }
 
 func (r *result) has(k string) bool {
@@ -245,12 +272,15 @@ func run(h hist) result {
 			tr := state.Transfer{ClientID: w.id, ToClientID: recipient(o.To), Amount: currency.Coin(o.Amount)}
 			// signature
 			sig := ""
+			signedAmount := uint64(0)
 			if o.S >= 1 && sw != nil && o.S <= sw.n {
 				key := sw.shares[o.S-1]
 				signTr := tr
+				signedAmount = o.Amount
 				switch o.Sig {
 				case "otheramount":
 					signTr.Amount++
+					signedAmount++
 				case "otherkey":
 					key = sw.shares[o.S%sw.n]
 				}
@@ -361,7 +391,7 @@ func run(h hist) result {
 				res.kinds["executed"]++
 				res.outs = append(res.outs, fmt.Sprintf("(MsExecuted %d %d %d)", o.W, o.To, uint64(st.Amount)))
 				if l == nil {
-					l = &ledger{expire: o.Now + multisigsc.ExpirationTime, to: o.To, amount: o.Amount, voters: map[int]bool{}}
+					l = &ledger{expire: o.Now + multisigsc.ExpirationTime, to: o.To, amount: o.Amount, voters: map[int]bool{}, signed: map[int][2]uint64{}}
 					led[ref] = l
 				}
 				if l.executed {
@@ -371,6 +401,7 @@ func run(h hist) result {
 					res.fail("executed-by-a-vote-that-must-not-count")
 				}
 				l.voters[signerTok] = true
+				l.signed[signerTok] = [2]uint64{uint64(o.To), signedAmount}
 				for vt := range l.voters {
 					switch idx := vt % 100; {
 					case idx >= 16:
@@ -388,6 +419,16 @@ func run(h hist) result {
 				}
 				if st.PublicKey != w.pk || st.VerifySignature(true) != nil {
 					res.fail("executed-transfer-signature-invalid")
+				}
+				// C04: another account (the wallet) is debited only with its own valid signature, for the
+				// recipient and amount every counted voter signed
+				if st.ClientID != w.id || st.PublicKey != w.pk || st.VerifySignature(true) != nil {
+					res.c04("signed-transfer-without-valid-signature:multisig")
+				}
+				for _, sg := range l.signed {
+					if recipient(int(sg[0])) != st.ToClientID || sg[1] != uint64(st.Amount) {
+						res.c04("signed-transfer-amount-not-what-voters-signed")
+					}
 				}
 			case strings.HasPrefix(resp, "success 0: proposal previously executed"):
 				res.outs = append(res.outs, "MsAlreadyExecuted")
@@ -414,10 +455,11 @@ func run(h hist) result {
 					res.fail("vote-counted-that-must-not-count")
 				}
 				if l == nil {
-					l = &ledger{expire: o.Now + multisigsc.ExpirationTime, to: o.To, amount: o.Amount, voters: map[int]bool{}}
+					l = &ledger{expire: o.Now + multisigsc.ExpirationTime, to: o.To, amount: o.Amount, voters: map[int]bool{}, signed: map[int][2]uint64{}}
 					led[ref] = l
 				}
 				l.voters[signerTok] = true
+				l.signed[signerTok] = [2]uint64{uint64(o.To), signedAmount}
 				if rem != w.t-len(l.voters) {
 					res.fail("remaining-votes-miscounted")
 				}
@@ -484,7 +526,11 @@ func genHist(r *vh.Rand) hist {
 		}
 	}
 	n := r.Range(6, 30)
-	type prop struct{ to int; amount uint64; created int64 }
+	type prop struct {
+		to      int
+		amount  uint64
+		created int64
+	}
 	props := map[[2]int]*prop{}
 	for i := 0; i < n; i++ {
 		switch x := r.Intn(12); {
@@ -563,7 +609,11 @@ func main() {
 	o := vh.ParseFlags()
 	sc.Init()
 	contract = multisigsc.NewMultiSigSmartContract()
-	rep := vh.NewReport("multisig", "C21", o)
+	prop := o.Prop
+	if prop != "C04" {
+		prop = "C21"
+	}
+	rep := vh.NewReport("multisig", prop, o)
 	rep.Rule = "histories on the real multisigsc.Execute with real BLS threshold key shares (GenerateThresholdKeyShares, one set per wallet shape and run): two wallets, mostly 2..4-of-10..20 and 2..5-of-16..20 " +
 		"(threshold ids are hex: signers #10-#15 have ids a-f, #16-#20 ids 10-14), else 2-of-3 and 3-of-4 or 2-of-2 and t-of-4/5; per proposal a committee of t..t+2 signers biased to the high-index ones votes, " +
 		"registered by their own client (1 in 6 first tried with a flaw: duplicate id/key, threshold 1 or > n, more than 20 signers, other scheme, bad key, foreign public key, other client), then 6-30 votes " +
@@ -581,18 +631,18 @@ func main() {
 		rep.Case(string(b), res.kinds["executed"] > 0 && res.kinds["repeat-vote"]+res.kinds["vote-after-execution"] > 0 && res.kinds["vote-refused"] > 0, h)
 		cf.Add(coqCase(h, res))
 		rep.CaseInputs = append(rep.CaseInputs, h)
-		for _, f := range res.fails {
+		for _, f := range res.list(prop) {
 			if reported[f] {
 				continue
 			}
 			reported[f] = true
 			f := f
-			keep := vh.ShrinkIdx(len(h.Ops), func(keep []int) bool { r2 := run(sub(h, keep)); return r2.has(f) })
-			rep.Violate("C21:"+f, "multisig: "+f, sub(h, keep))
+			keep := vh.ShrinkIdx(len(h.Ops), func(keep []int) bool { r2 := run(sub(h, keep)); return r2.hasIn(prop, f) })
+			rep.Violate(prop+":"+f, "multisig: "+f, sub(h, keep))
 		}
 	}
 	finish := func() {
-		files, err := cf.Write(o.Out, "C21")
+		files, err := cf.Write(o.Out, prop)
 		if err != nil {
 			panic(err)
 		}
